@@ -229,7 +229,8 @@ def run_case(case, g, tier, res):
         def detail(label):
             def build(mv, c):
                 vals = gendrive.role_values(c, mv, roles)
-                return (f"C17:{label.split(' (')[0]}", f"{label} [{case['name']}: {text}] weights={vals}", {"kind": "sag", "text": text, "weights": vals, "label": label})
+                tag = next((f"@{s_['sigtag']}" for s_ in gendrive.SKELETONS if s_["name"] == case["name"] and s_.get("sigtag")), "")
+                return (f"C17:{label.split(' (')[0]}{tag}", f"{label} [{case['name']}: {text}] weights={vals}", {"kind": "sag", "text": text, "weights": vals, "label": label})
             return build
 
         P = _P(c, detail)
@@ -247,6 +248,18 @@ def run_case(case, g, tier, res):
         n2, e2 = code_graph(sag.graph)
         c.prove(n2 == n and len(e2) == len(e) and sorted((u, v, k, bt) for u, v, k, bt, w in e2) == sorted((u, v, k, bt) for u, v, k, bt, w in e),
                 "second generate() gives the same graph", detail("a second generate() on the same object gives another graph"), fatal=False)
+        # the graph of the mirror, taken after the graph of the molecule was built, is the mirror's own graph
+        try:
+            mir = mol.gen_mirror()
+            msag = mir.gen_stochastic_atom_graph(_is_sz(g, mol)) if mir is not None else None
+        except Exception as ex:
+            core.reraise_if_harness(ex)
+            mir = None
+        if mir is not None:
+            PM = _P(c, detail)  # same obligations (and signatures) as for the molecule itself, on the mirror
+            mrn, mre, mls = reference_graph(g, mir)
+            mn, me = code_graph(msag.graph)
+            compare(PM, mrn, mre, mn, me, mls)
         return len(n), len(e)
 
     explore_case(res, h, tier, on_path=on_path)
@@ -270,4 +283,15 @@ def replay(rp, gb):
             P.failed.append("a second generate() on the same object gives another graph")
     except Exception as ex:
         P.failed.append("a second generate() on the same object gives another graph")
+    try:
+        mir = mol.gen_mirror()
+        msag = mir.gen_stochastic_atom_graph(_is_sz(gb, mol)) if mir is not None else None
+    except Exception:
+        mir = None
+    if mir is not None:
+        PM = _CP()
+        mrn, mre, mls = reference_graph(gb, mir)
+        mn, me = code_graph(msag.graph)
+        compare(PM, mrn, mre, mn, me, mls)
+        P.failed += PM.failed
     return rp["label"] in P.failed, f"failed: {sorted(set(P.failed))}"
